@@ -175,10 +175,46 @@ def rand_event_spec(rng, depth=3, max_dur=30 * DAY_US) -> dict:
     return dict(ts=ts, off=rand_offset(rng), dur=dur, data=rand_data(rng, depth))
 
 
+def materialise(x):
+    """case data is JSON; {"$tuple": [...]} and {"$intkeys": {...}} stand for Python values JSON cannot carry"""
+    if isinstance(x, dict):
+        if set(x) == {"$tuple"}:
+            return tuple(materialise(v) for v in x["$tuple"])
+        if set(x) == {"$intkeys"}:
+            return {int(k): materialise(v) for k, v in x["$intkeys"].items()}
+        return {k: materialise(v) for k, v in x.items()}
+    if isinstance(x, list):
+        return [materialise(v) for v in x]
+    return x
+
+
+def exact(x) -> str:
+    """Type-exact canonical text of a Python value: unlike canon() it tells a tuple from a list, 1 from 1.0 from True,
+    0.0 from -0.0 and an int key from a str key. For data that never went through JSON (what transforms are handed)."""
+    def t(v):
+        if isinstance(v, dict):
+            return {"$d": sorted(([t(k), t(val)] for k, val in v.items()), key=lambda kv: json.dumps(kv[0], ensure_ascii=True, default=str))}
+        if isinstance(v, list):
+            return ["$l"] + [t(i) for i in v]
+        if isinstance(v, tuple):
+            return ["$t"] + [t(i) for i in v]
+        if isinstance(v, bool):
+            return ["$b", v]
+        if isinstance(v, (int, float)):
+            return ["$" + type(v).__name__[0], repr(v)]
+        if v is None or isinstance(v, str):
+            return v
+        return ["$o", type(v).__name__, repr(v)]
+    try:
+        return json.dumps(t(x), ensure_ascii=False)
+    except Exception:  # noqa: BLE001 - never let the oracle's printing decide anything
+        return repr(x)
+
+
 def mk_event(spec: dict):
     from aw_core.models import Event
     return Event(id=spec.get("id"), timestamp=mk_dt(spec["ts"], spec.get("off", 0), spec.get("zone")),
-                 duration=timedelta(microseconds=spec["dur"]), data=copy.deepcopy(spec.get("data", {})))
+                 duration=timedelta(microseconds=spec["dur"]), data=materialise(copy.deepcopy(spec.get("data", {}))))
 
 
 def mk_events(specs):
@@ -265,6 +301,19 @@ def bucket_ids(rng, n, plain_p=0.5):
     """n distinct bucket ids: plain ones, or a family of ids that are easily taken for one another"""
     fam = BUCKET_ID_FAMILIES[0] if rng.random() < plain_p else rng.choice(BUCKET_ID_FAMILIES[1:])
     return rng.sample(fam, n)
+
+
+# where batching code is likely to cut: powers of two, round decimal sizes, the peewee chunk of 100, the lazy-commit
+# threshold of 50, and SQLite's limits divided by a row's column count (999 or 32766 bound variables per statement over
+# 3 / 4 / 5 / 7 columns; 500 terms in a compound SELECT)
+BATCH_EDGES = [50, 64, 100, 128, 142, 199, 249, 250, 256, 333, 499, 500, 512, 999, 1000, 1024, 4681, 6553, 8191, 8192, 10922]
+
+
+def batch_edge(rng, cap):
+    """a count that is a small multiple of a likely batch size, or one off"""
+    base = rng.choice([b for b in BATCH_EDGES if b <= cap] or [cap])
+    k = rng.choice([k for k in (1, 1, 2, 3, 4) if base * k <= cap] or [1])
+    return max(0, base * k + rng.choice([0, 0, 0, -1, 1]))
 
 
 def big_n(rng, n, p=0.004, sizes=(120, 257, 600)):
